@@ -20,7 +20,8 @@ from harness import common
 
 GEN_MODULES = ['flux']
 MODEL_TARGETS = ['model/M_Flux.vo']
-PROOF_TARGETS = ['proofs/P_Flux.vo', 'proofs/P_FluxInt.vo', 'proofs/P_FluxObj.vo', 'proofs/P_FluxStore.vo']
+PROOF_TARGETS = ['proofs/P_Flux.vo', 'proofs/P_FluxInt.vo', 'proofs/P_FluxObj.vo', 'proofs/P_FluxStore.vo',
+                 'proofs/P_FluxDeep.vo']
 LEVEL = 'proof'
 RULE = ('all profile classes (unity/power-law/cut-off/log-parabola/function energy; unity/box/gaussian time; '
         'unity/point spatial) and FactorizedFluxModel with random parameters (gamma = 1, 1 +- 1e-3..1e-12, generic), '
@@ -39,7 +40,8 @@ TRUSTED = [
     'OCaml extraction (ExtrOcamlBasic only) and the hand-written float record / driver ocaml/c13/driver.ml',
     'theorems are about the real-number reading; float rounding (cancellation near gamma = 1, erf tails) is outside them',
     'unit conversion modelled as a factor table (astropy unit.to = quotient of factors)',
-    'numerically integrated profiles (cut-off, log-parabola, function-based) have no closed form: scipy quad is an oracle',
+    'numerically integrated profiles (cut-off, log-parabola, function-based): scipy quad is an oracle; its contract (returns the '
+    'Riemann integral of an integrable integrand) is a premise of C13_numeric_int / C13_numeric_additive',
     'not modelled: angle units, None as ra/dec, NaN parameter values, EpeakFunctionEnergyProfile, photospline profile',
 ]
 
